@@ -1089,7 +1089,7 @@ func (i *BigInt) RightBitshiftUInt8(other UInt8) Value {
 
 func leftBitshiftBigInt[T SimpleInt](i *BigInt, other T) Value {
 	if other < 0 {
-		return SmallInt(0).ToValue()
+		return rightBitshiftBigInt(i, -other)
 	}
 	iGo := i.ToGoBigInt()
 	return Ref(ToElkBigInt((&big.Int{}).Lsh(iGo, uint(other))))
